@@ -126,6 +126,13 @@ func checkCase(t hx.TB, test string, c tcase) {
 			}
 		}
 	}
+	// Equal only looks: the slices the types were built from (handed to the constructors as prefixes of longer
+	// slices, as a client may do) are untouched, also behind their ends
+	for _, ts := range []*emit.Types{A, B} {
+		if msg := ts.GuardsIntact(); msg != "" {
+			fail("after the Equal queries %s", msg)
+		}
+	}
 }
 
 // roundTrip embeds t in a module at a position legal for its kind, prints, parses and compares.
